@@ -129,6 +129,12 @@ func uuResolve(v ssa.Value) ssa.Value {
 					v = s
 					continue
 				}
+				// a local assigned on several paths (named result): the one
+				// store that reaches this load on every path, if there is one
+				if s := uuReachingStore(a, x); s != nil {
+					v = s
+					continue
+				}
 				return v
 			case *ssa.FreeVar:
 				if b, ok := uuFreeVarBinding(a).(*ssa.Alloc); ok {
@@ -262,10 +268,11 @@ func uuRelOf(cond ssa.Value, pol bool) (uuRel, bool) {
 	return uuRel{op, b.X, b.Y}, true
 }
 
-// uuGuardRels lists the comparisons established at block b.
+// uuGuardRels lists the comparisons established at block b (named booleans
+// and evaluated conjunctions expanded, see uuExpandGuards).
 func uuGuardRels(b *ssa.BasicBlock) []uuRel {
 	var out []uuRel
-	for _, g := range core.GuardsAt(b) {
+	for _, g := range uuGuardsAt(b) {
 		if r, ok := uuRelOf(g.Cond, g.Pol); ok {
 			out = append(out, r)
 		}
@@ -275,34 +282,19 @@ func uuGuardRels(b *ssa.BasicBlock) []uuRel {
 
 // uuHasRel: some guard at b, normalised, satisfies match.
 func uuHasRel(b *ssa.BasicBlock, match func(r uuRel) bool) bool {
-	for _, r := range uuGuardRels(b) {
-		if match(r) {
-			return true
-		}
-	}
-	return false
+	return uuHasGuard(b, uuRelMatch(match))
 }
 
 // uuAllEdgesRel is core.AllEdgesGuarded on normalised comparisons.
 func uuAllEdgesRel(b *ssa.BasicBlock, match func(r uuRel) bool) bool {
-	return core.AllEdgesGuarded(b, func(g core.Guard) bool {
-		r, ok := uuRelOf(g.Cond, g.Pol)
-		return ok && match(r)
-	})
+	return uuAllEdgesGuarded(b, uuRelMatch(match))
 }
 
 // uuBoolGuard: a guard at b is the boolean value matched by f with the given
 // polarity (e.g. the result of a call used directly as condition).
 func uuBoolGuard(b *ssa.BasicBlock, pol bool, f func(v ssa.Value) bool) bool {
-	return core.HasGuard(b, func(g core.Guard) bool {
-		cond, p := g.Cond, g.Pol
-		for {
-			u, ok := cond.(*ssa.UnOp)
-			if !ok || u.Op != token.NOT {
-				break
-			}
-			cond, p = u.X, !p
-		}
+	return uuHasGuard(b, func(g core.Guard) bool {
+		cond, p := uuStripNot(g.Cond, g.Pol)
 		return p == pol && f(cond)
 	})
 }
